@@ -58,7 +58,7 @@ var (
 
 	// ErrSymbolContainsDot symbol contains .
 	ErrSymbolContainsDot = errors.New("symbol contains '.'")
-	// ErrInvalidValue the zero reflect.Value cannot be bound to a symbol
+	// ErrInvalidValue the zero reflect.Value, or one that gives no Go value (taken from an unexported struct field), cannot be bound to a symbol
 	ErrInvalidValue = errors.New("invalid reflect.Value")
 )
 
